@@ -1,5 +1,5 @@
 //@ ret r
 //@ contract
     ensures
-        rest(r) == dfs(*self.root, version),       // @the_listing_is_that_of_the_whole_trie_at_this_version
+        rest(r) == dfs(*self.root, Seq::<PathSegment>::empty(), version),       // @the_listing_is_that_of_the_whole_trie_at_this_version
         iter_wf(r),
